@@ -492,7 +492,9 @@ def run_usim(spec, embedded=False, natives=()):
                     world.setup()
                     for name in natives:
                         scope.do(native_waiter(name), volatile=True)
-        usim.run(main(), start=spec['initial_time'])
+        # the native simulation may be younger than the environment's initial time: the
+        # environment begins when the native clock gets there
+        usim.run(main(), start=spec['initial_time'] - spec.get('native_head_start', 0))
         holder['result'] = None
     kind, exc = sess.run(runner=runner)
     world = holder.get('world')
@@ -597,6 +599,11 @@ def embedded_family(case, spec, ref_world, stats):
     for _ in spec.get('chains', ()):        # chains of chains: transitive
         failing |= {target for source, target in spec.get('chains', ()) if source in failing}
     natives = [name for name in spec['events'] if name not in failing]
+    if spec['initial_time']:
+        spec = dict(spec, native_head_start=[0, 1.5, spec['initial_time'], spec['initial_time'] + 3][
+            case['index'] % 4])
+        stats['embedded_before_initial_time'] = stats.get('embedded_before_initial_time', 0) + int(
+            spec['native_head_start'] > 0)
     world, outcome, result, now, sess, native_log = run_usim(spec, embedded=True, natives=natives)
     stats['embedded_runs'] += 1
     ref = run_reference(spec)
